@@ -1,6 +1,6 @@
 # C11 — see MANIFEST text below; families are combined from per-family modules
 from famcombine import combine
-combine('C11', ['fam_thetacodec', 'fam_densitycodec', 'fam_cmcodec', 'fam_tdigestcodec', 'fam_varoptcodec', 'fam_cqcodec', 'fam_bloomcodec', 'fam_tuplecodec', 'fam_ebppscodec', 'fam_hllcodec', 'fam_ficodec', 'fam_reqcodec', 'fam_serde'], globals())
+combine('C11', ['fam_thetacodec', 'fam_densitycodec', 'fam_cmcodec', 'fam_tdigestcodec', 'fam_varoptcodec', 'fam_cqcodec', 'fam_bloomcodec', 'fam_tuplecodec', 'fam_ebppscodec', 'fam_hllcodec', 'fam_ficodec', 'fam_reqcodec', 'fam_cpccodec', 'fam_serde'], globals())
 MANIFEST = dict(
     level_text=('Theorems: for the modelled layouts every strict prefix of an image is rejected by the model decoder (or decodes to the same sketch where the tail is padding) and the decoder is total. '
                 'Implementation side: exhaustive enumeration of every prefix length and of every preamble byte position x a fixed set of replacement values, on the bytes and the stream path, '
